@@ -73,6 +73,13 @@ func rulesC01(w *World, r *Report) {
 	// R4
 	w.ruleConvertedSinks(r, "C01.R4 typed destinations receive converted values")
 	r.note("spec table digest %s", specDigest())
+	include(w, r, "C04")
+	include(w, r, "C05")
+	include(w, r, "C07")
+	include(w, r, "C08")
+	include(w, r, "C09")
+	include(w, r, "C10")
+	include(w, r, "C16")
 }
 
 // ruleSetterKinds: in readField, SetInt only under Int kinds, SetUint under
@@ -328,6 +335,7 @@ func rulesC02(w *World, r *Report) {
 	// R6 ref ordinal
 	w.ruleRefOrdinal(r, "C02.R6 back-reference carries the registrar's ordinal")
 	r.note("spec table digest %s", specDigest())
+	include(w, r, "C04")
 }
 
 // ruleValuesPerIteration: element loops of the container writers write a
